@@ -3,9 +3,15 @@ C05 — polynomial relaxations bound the minimum over all sign orthants.
 Property theorems about `Model/Poly.lean`.
 -/
 import SageoptModel.Model.Poly
+import SageoptModel.Lemmas.PolySem
+import SageoptModel.Lemmas.PolyAMono
+import SageoptModel.Lemmas.PolyARep
+import SageoptModel.Lemmas.PolyAChar
+import SageoptModel.Lemmas.PolyACont
+import Mathlib.Analysis.SpecialFunctions.Log.Basic
 
 namespace Sageopt.Props.C05
-open Sageopt Sageopt.Sig Sageopt.Relax Sageopt.Poly
+open Sageopt Sageopt.Sig Sageopt.Relax Sageopt.Poly Sageopt.Sage
 
 /-- the signomial representative keeps the exponent rows of the polynomial, in order -/
 theorem sigRep_keys (p : SigL) (chat : List Nat) : keys (sigRep p chat).1.terms = keys p.terms := by
@@ -26,5 +32,259 @@ theorem sigRep_keys (p : SigL) (chat : List Nat) : keys (sigRep p chat).1.terms 
       · cases ids with
         | nil => simp [keys] at ih ⊢; exact ih []
         | cons id rest => simp [keys] at ih ⊢; exact ih rest
+
+/-- a monomial at a point without zero coordinates: `|x^a| = e^{a·log|x|}`, and `x^a = e^{a·log|x|}` when the row is even -/
+theorem mono_abs_exp (a : Exp) (x : List ℝ) (hx : NoZero x) (hl : a.length = x.length) (ha : isPolyExp a = true) :
+    |monoR a x| = Real.exp (rdot a (logAbs x)) ∧ (isEvenExp a = true → monoR a x = Real.exp (rdot a (logAbs x))) :=
+  ⟨pa_mono_abs a x hx hl ha, pa_mono_even a x hx hl ha⟩
+
+/-- numeric signomial representative: `p(x) ≥ sr(log|x|)` at every point with no zero coordinate, in every orthant -/
+theorem sigRepQ_minorant (f : SigQ) (hf : PolyWfQ f) (x : List ℝ) (hx : NoZero x) (hl : x.length = f.n) :
+    sigR (sigRepQ f).terms (logAbs x) ≤ polyR f.terms x :=
+  pa_sigRepQ_terms f.terms x hx (fun t ht => ⟨by rw [(hf t ht).1, hl], (hf t ht).2⟩)
+
+/-- variable coefficients: for EVERY assignment satisfying the side constraints `ĉ ≤ c`, `ĉ ≤ −c` -/
+theorem sigRep_minorant (p : SigL) (hp : PolyWf p) (chat : List Nat) (hc : (needVars p).length ≤ chat.length)
+    (σ : Nat → Rat) (hside : SideOk σ (sigRep p chat).2) (x : List ℝ) (hx : NoZero x) (hl : x.length = p.n) :
+    sigR (evalL σ (sigRep p chat).1.terms) (logAbs x) ≤ polyR (evalL σ p.terms) x := by
+  rw [pa_sigRep_eq] at hside ⊢
+  rw [pa_needVars_length] at hc
+  exact pa_sigRepTerms_minorant p.terms chat hc σ hside x hx
+    (fun t ht => ⟨by rw [(hp t ht).1, hl], (hp t ht).2.1⟩)
+
+/-- with too few fresh ids the statement fails (the model poisons the coefficient; the code always allocates enough) -/
+theorem sigRep_minorant_needs_ids :
+    ∃ (p : SigL) (σ : Nat → Rat) (x : List ℝ), PolyWf p ∧ SideOk σ (sigRep p []).2 ∧ NoZero x ∧ x.length = p.n ∧
+      ¬ sigR (evalL σ (sigRep p []).1.terms) (logAbs x) ≤ polyR (evalL σ p.terms) x := by
+  refine ⟨⟨1, [([1], Lin.var 0)]⟩, fun _ => 1, [-1], ?_, ?_, ?_, rfl, ?_⟩
+  · intro t ht
+    simp only [List.mem_singleton] at ht
+    subst ht
+    exact ⟨rfl, by with_unfolding_all decide, rfl⟩
+  · have he : isEvenExp [1] = false := by with_unfolding_all decide
+    rw [pa_sigRep_eq, pa_sigRepTerms_poison [1] (Lin.var 0) [] he rfl, pa_sigRepTerms_nil]
+    intro s hs
+    simp at hs
+  · intro t ht
+    simp only [List.mem_singleton] at ht
+    subst ht
+    norm_num
+  · have he : isEvenExp [1] = false := by with_unfolding_all decide
+    have h1 : ((1 : Rat)).num.toNat = 1 := by with_unfolding_all decide
+    have hv : Lin.value (fun _ => (1 : Rat)) (Lin.var 0) = 1 := pa_value_var _ 0
+    have hv' : Lin.value (fun _ => (1 : Rat)) { Lin.var 0 with bad := true } = 1 := by
+      simp [Lin.value, Lin.var]
+    rw [pa_sigRep_eq, pa_sigRepTerms_poison [1] (Lin.var 0) [] he rfl, pa_sigRepTerms_nil]
+    simp only [evalL, List.map_cons, List.map_nil, hv, hv', sigR, polyR, monoR, rdot, logAbs,
+      List.zipWith_cons_cons, List.zipWith_nil_right, List.sum_cons, List.sum_nil, List.prod_cons,
+      List.prod_nil, h1]
+    norm_num
+
+/-- the side constraints are exactly one pair per row in `needVars`, in order, on the supplied ids -/
+theorem sigRep_side (p : SigL) (chat : List Nat) (hc : (needVars p).length ≤ chat.length) :
+    (sigRep p chat).2.map (·.chat) = chat.take (needVars p).length ∧
+    (sigRep p chat).2.map (·.c) = (needVars p).map fun i => (p.terms.getD i ([], Lin.const 0)).2 := by
+  rw [pa_needVars_length] at hc ⊢
+  rw [pa_sigRep_eq, pa_needVars_map]
+  exact pa_sigRepTerms_side p.terms chat hc
+
+/-- `create_covers`: a cover never contains its own index nor a row with an odd exponent; an index has no AGE cone
+    exactly when its coefficient is a nonnegative constant on an even row -/
+theorem createCovers_spec (sr : SigL) :
+    (∀ pr ∈ createCovers sr, pr.2.length = sr.terms.length ∧ pr.2.getD pr.1 false = false ∧
+        ∀ j, pr.2.getD j false = true → isEvenExp ((sr.terms.getD j ([], Lin.const 0)).1) = true) ∧
+    (∀ i, i < sr.terms.length →
+        (i ∉ (createCovers sr).map (·.1) ↔
+          ((sr.terms.getD i ([], Lin.const 0)).2.isConstant = true ∧ 0 ≤ (sr.terms.getD i ([], Lin.const 0)).2.off ∧
+            isEvenExp ((sr.terms.getD i ([], Lin.const 0)).1) = true))) := by
+  constructor
+  · intro pr hpr
+    obtain ⟨q, _, _, rfl⟩ := (pa_mem_createCovers sr pr).1 hpr
+    refine ⟨by simp [pa_coverRow], ?_, ?_⟩
+    · rw [pa_coverRow_getD]; simp
+    · intro j hj
+      rw [pa_coverRow_getD] at hj
+      simp only [Bool.and_eq_true] at hj
+      exact hj.2.2
+  · intro i hi
+    have hskip : pa_skip (sr.terms.getD i ([], Lin.const 0)) = true ↔
+        ((sr.terms.getD i ([], Lin.const 0)).2.isConstant = true ∧ 0 ≤ (sr.terms.getD i ([], Lin.const 0)).2.off ∧
+          isEvenExp ((sr.terms.getD i ([], Lin.const 0)).1) = true) := by
+      simp [pa_skip, and_assoc]
+    rw [← hskip]
+    have hget : sr.terms[i]? = some (sr.terms.getD i ([], Lin.const 0)) := by
+      rw [List.getD_eq_getElem?_getD, List.getElem?_eq_getElem hi]; rfl
+    constructor
+    · intro hnot
+      by_contra hs
+      apply hnot
+      refine List.mem_map.2 ⟨(i, pa_coverRow sr i), ?_, rfl⟩
+      exact (pa_mem_createCovers sr _).2 ⟨(sr.terms.getD i ([], Lin.const 0), i),
+        List.mem_zipIdx_iff_getElem?.2 hget, by simpa using hs, rfl⟩
+    · intro hs hmem
+      obtain ⟨pr, hpr, rfl⟩ := List.mem_map.1 hmem
+      obtain ⟨q, hq, hqs, rfl⟩ := (pa_mem_createCovers sr pr).1 hpr
+      have := pa_zipIdx_getD sr.terms ([], Lin.const 0) q hq
+      simp only at hs
+      rw [this, hqs] at hs
+      exact absurd hs (by simp)
+
+set_option linter.unusedVariables false in
+/-- even-exponent modulators are nonnegative everywhere -/
+theorem stdMultiplier_nonneg (f : SigQ) (hf : PolyWfQ f) (ell : Nat) (x : List ℝ) (hl : x.length = f.n) :
+    0 ≤ polyR (powNat isZeroQ (stdMultiplier f) ell).terms x := by
+  rw [pa_polyR_powNat x f.n (pa_std_polyWf f hf) ell, pa_std_polyR f hf x]
+  exact pow_nonneg (pa_evens_nonneg f hf x) ell
+
+set_option linter.unusedVariables false in
+/-- and positive away from the coordinate hyperplanes as soon as `f` has one even row
+    (without an even row the modulator is the zero polynomial: `stdMultiplier_zero`) -/
+theorem stdMultiplier_pos (f : SigQ) (hf : PolyWfQ f) (hnd : (keys f.terms).Nodup) (hev : ∃ t ∈ f.terms, isEvenExp t.1 = true) (ell : Nat)
+    (x : List ℝ) (hx : NoZero x) (hl : x.length = f.n) :
+    0 < polyR (powNat isZeroQ (stdMultiplier f) ell).terms x := by
+  rw [pa_polyR_powNat x f.n (pa_std_polyWf f hf) ell, pa_std_polyR f hf x]
+  exact pow_pos (pa_evens_pos f hf hev x hx hl) ell
+
+theorem stdMultiplier_zero (f : SigQ) (hev : ∀ t ∈ f.terms, isEvenExp t.1 = false) (x : List ℝ) :
+    polyR (stdMultiplier f).terms x = 0 := by
+  have h : (f.terms.filter fun t => isEvenExp t.1) = [] := by
+    rw [List.filter_eq_nil_iff]
+    intro t ht
+    simp [hev t ht]
+  have h2 : (stdMultiplier f).terms = [] := by
+    unfold stdMultiplier
+    rw [h]
+    rfl
+  rw [h2]
+  exact pa_polyR_nil x
+
+/-- the dual construction accepts the SIGNED moment vectors of every real point: with `v_j = t·x^{a_j}` and
+    `aux_j = t·e^{a_j·log|x|}` one has `aux_j = v_j` on even rows and `|v_j| ≤ aux_j` on the others -/
+theorem dual_signed_moments (alpha : List Exp) (x : List ℝ) (hx : NoZero x) (hw : ∀ a ∈ alpha, a.length = x.length ∧ isPolyExp a = true)
+    (t : ℝ) (ht : 0 ≤ t) :
+    ∀ a ∈ alpha,
+      (isEvenExp a = true → t * Real.exp (rdot a (logAbs x)) = t * monoR a x) ∧
+      (-(t * Real.exp (rdot a (logAbs x))) ≤ t * monoR a x ∧ t * monoR a x ≤ t * Real.exp (rdot a (logAbs x))) := by
+  intro a ha
+  obtain ⟨hal, hap⟩ := hw a ha
+  have habs := pa_mono_abs a x hx hal hap
+  refine ⟨fun he => by rw [pa_mono_even a x hx hal hap he], ?_, ?_⟩
+  · rw [← habs, ← mul_neg]
+    exact mul_le_mul_of_nonneg_left (neg_abs_le _) ht
+  · rw [← habs]
+    exact mul_le_mul_of_nonneg_left (le_abs_self _) ht
+
+set_option linter.unusedVariables false in
+/-- a bound valid at all points without zero coordinates is valid everywhere (polynomials are continuous and those
+    points are dense): this is how the relaxations, which work in `log|x|`, bound `p` at points with zero coordinates -/
+theorem bound_extends_to_zero_coords (ts : List (Exp × Rat)) (n : Nat) (hw : ∀ t ∈ ts, t.1.length = n) (v : ℝ)
+    (h : ∀ x : List ℝ, x.length = n → NoZero x → v ≤ polyR ts x) :
+    ∀ x : List ℝ, x.length = n → v ≤ polyR ts x := by
+  intro x hx
+  exact pa_extend ts v x (fun ε hε => h _ (by rw [pa_shift_length, hx]) hε)
+
+/-! ### non-vacuity: every theorem above with hypotheses, instantiated on a concrete instance
+(concrete values of the executable model are checked by `decide`; core `Rat` operations are irreducible,
+hence `with_unfolding_all`) -/
+section NonVacuity
+
+/-- the polynomial `x₁² − 3·x₁x₂ + x₂² + 2·x₁` -/
+private def fEx : SigQ := ⟨2, [([2, 0], 1), ([1, 1], -3), ([0, 2], 1), ([1, 0], 2)]⟩
+/-- `x² + c·x³ + (1 − c)·x + 4·x⁵` with the scalar variable `c` (id 0) -/
+private def pEx : SigL :=
+  ⟨1, [([2], Lin.const 1), ([3], Lin.var 0), ([1], Lin.add (Lin.const 1) (Lin.scale (-1) (Lin.var 0))), ([5], Lin.const 4)]⟩
+/-- `c = 3`, `ĉ₇ = −3`, `ĉ₈ = −2` -/
+private def σEx : Nat → Rat := fun i => if i = 0 then 3 else if i = 7 then -3 else -2
+
+private theorem fEx_wf : PolyWfQ fEx := by
+  show ∀ t ∈ fEx.terms, t.1.length = fEx.n ∧ isPolyExp t.1 = true
+  with_unfolding_all decide
+
+private theorem pEx_wf : PolyWf pEx := by
+  show ∀ t ∈ pEx.terms, t.1.length = pEx.n ∧ isPolyExp t.1 = true ∧ t.2.bad = false
+  with_unfolding_all decide
+
+private theorem noZeroEx : NoZero [(-1 : ℝ), 2] := by
+  intro t ht
+  simp only [List.mem_cons, List.not_mem_nil, or_false] at ht
+  rcases ht with rfl | rfl <;> norm_num
+
+private theorem noZeroEx1 : NoZero [(-2 : ℝ)] := by
+  intro t ht
+  simp only [List.mem_singleton] at ht
+  subst ht
+  norm_num
+
+private theorem needEx : needVars pEx = [1, 2] := by with_unfolding_all decide
+
+private theorem sideEx : SideOk σEx (sigRep pEx [7, 8]).2 := by
+  have h : (sigRep pEx [7, 8]).2 =
+      [⟨7, Lin.var 0⟩, ⟨8, Lin.add (Lin.const 1) (Lin.scale (-1) (Lin.var 0))⟩] := by
+    with_unfolding_all rfl
+  rw [h]
+  intro s hs
+  simp only [List.mem_cons, List.not_mem_nil, or_false] at hs
+  rcases hs with rfl | rfl <;> with_unfolding_all decide
+
+example : |monoR [3, 2] [-1, 2]| = Real.exp (rdot [3, 2] (logAbs [-1, 2])) :=
+  (mono_abs_exp [3, 2] [-1, 2] noZeroEx rfl (by with_unfolding_all decide)).1
+
+example : monoR [4, 2] [-1, 2] = Real.exp (rdot [4, 2] (logAbs [-1, 2])) :=
+  (mono_abs_exp [4, 2] [-1, 2] noZeroEx rfl (by with_unfolding_all decide)).2 (by with_unfolding_all decide)
+
+example : (sigRepQ fEx).terms = [([2, 0], 1), ([1, 1], -3), ([0, 2], 1), ([1, 0], -2)] := by
+  with_unfolding_all decide
+
+example : sigR (sigRepQ fEx).terms (logAbs [-1, 2]) ≤ polyR fEx.terms [-1, 2] :=
+  sigRepQ_minorant fEx fEx_wf [-1, 2] noZeroEx rfl
+
+example : sigR (evalL σEx (sigRep pEx [7, 8]).1.terms) (logAbs [-2]) ≤ polyR (evalL σEx pEx.terms) [-2] :=
+  sigRep_minorant pEx pEx_wf [7, 8] (by rw [needEx]; decide) σEx sideEx [-2] noZeroEx1 rfl
+
+example : (sigRep pEx [7, 8]).2.map (·.chat) = [7, 8] := by
+  have h := (sigRep_side pEx [7, 8] (by rw [needEx]; decide)).1
+  rw [needEx] at h
+  exact h
+
+example : (createCovers (sigRep pEx [7, 8]).1).map (·.1) = [1, 2, 3] ∧
+    (createCovers (sigRep pEx [7, 8]).1).map (·.2) = [[true, false, false, false], [true, false, false, false], [true, false, false, false]] := by
+  with_unfolding_all decide
+
+example : (stdMultiplier fEx).terms = [([2, 0], 1), ([0, 2], 1)] := by with_unfolding_all decide
+
+example : (powNat isZeroQ (stdMultiplier fEx) 2).terms = [([0, 4], 1), ([2, 2], 2), ([4, 0], 1)] := by
+  with_unfolding_all decide
+
+example : 0 ≤ polyR (powNat isZeroQ (stdMultiplier fEx) 2).terms [0, -1] :=
+  stdMultiplier_nonneg fEx fEx_wf 2 [0, -1] rfl
+
+example : 0 < polyR (powNat isZeroQ (stdMultiplier fEx) 2).terms [-1, 2] :=
+  stdMultiplier_pos fEx fEx_wf (by with_unfolding_all decide)
+    ⟨([2, 0], 1), by simp [fEx], by with_unfolding_all decide⟩ 2 [-1, 2] noZeroEx rfl
+
+example (x : List ℝ) : polyR (stdMultiplier ⟨2, [([1, 0], 2), ([1, 1], -1)]⟩).terms x = 0 :=
+  stdMultiplier_zero _ (by with_unfolding_all decide) x
+
+example : ∀ a ∈ [[2, 0], [1, 1]],
+    (isEvenExp a = true → 3 * Real.exp (rdot a (logAbs [-1, 2])) = 3 * monoR a [-1, 2]) ∧
+    (-(3 * Real.exp (rdot a (logAbs [-1, 2]))) ≤ 3 * monoR a [-1, 2] ∧
+      3 * monoR a [-1, 2] ≤ 3 * Real.exp (rdot a (logAbs [-1, 2]))) :=
+  dual_signed_moments [[2, 0], [1, 1]] [-1, 2] noZeroEx (by with_unfolding_all decide) 3 (by norm_num)
+
+/-- `x² − 2·x + 1 ≥ 0` away from `x = 0`, hence everywhere -/
+example : ∀ x : List ℝ, x.length = 1 → (0 : ℝ) ≤ polyR [([2], 1), ([1], -2), ([0], 1)] x := by
+  apply bound_extends_to_zero_coords _ 1 (by decide)
+  intro x hx _
+  match x, hx with
+  | [t], _ =>
+    have h2 : ((2 : Rat)).num.toNat = 2 := by with_unfolding_all decide
+    have h1 : ((1 : Rat)).num.toNat = 1 := by with_unfolding_all decide
+    have h0 : ((0 : Rat)).num.toNat = 0 := by with_unfolding_all decide
+    simp only [polyR, monoR, List.map_cons, List.map_nil, List.zipWith_cons_cons, List.zipWith_nil_right,
+      List.sum_cons, List.sum_nil, List.prod_cons, List.prod_nil, h2, h1, h0]
+    push_cast
+    nlinarith [sq_nonneg (t - 1)]
+
+end NonVacuity
 
 end Sageopt.Props.C05
